@@ -134,7 +134,8 @@ var c11sActionNames = map[StopAction]string{Stop: "Stop", GracefulStop: "Gracefu
 type c11sRec struct {
 	K  string
 	Th string
-	St State // the real stm.state when the record was made
+	St State      // the real stm.state when the record was made
+	A  StopAction // the real stm.stopAction then
 	T  time.Duration
 }
 
@@ -167,9 +168,11 @@ type c11sWorld struct {
 
 	// snapshots
 	endKey        string // canonical state at the end of the history
+	end           *c11sWorld
 	settledExited bool
 	settledState  State
 	settledQueues string
+	settledWg     int64
 	closingSent   bool
 	finalExited   bool
 	finalState    State
@@ -198,7 +201,7 @@ func (w *c11sWorld) rec(k string) {
 	if w.exited {
 		w.park()
 	}
-	w.log = append(w.log, c11sRec{K: k, Th: c11sThread(), St: stm.state, T: vrt.Now()})
+	w.log = append(w.log, c11sRec{K: k, Th: c11sThread(), St: stm.state, A: stm.stopAction, T: vrt.Now()})
 }
 
 func (w *c11sWorld) sleep(d time.Duration) {
@@ -215,13 +218,13 @@ func (w *c11sWorld) onState(s State) {
 	if w.exited {
 		w.park()
 	}
-	w.log = append(w.log, c11sRec{K: "state:" + c11sSN(s), Th: c11sThread(), St: stm.state, T: vrt.Now()})
+	w.log = append(w.log, c11sRec{K: "state:" + c11sSN(s), Th: c11sThread(), St: stm.state, A: stm.stopAction, T: vrt.Now()})
 	if s == Stopped {
 		// Stop(): logger.CloseAll(); os.Exit(exitCode) / os.Exit(1) / return to main, which returns
 		w.exited = true
 		w.exitBy = c11sThread()
 		w.exitCF = stm.exitCode
-		w.log = append(w.log, c11sRec{K: "exit", Th: c11sThread(), St: stm.state, T: vrt.Now()})
+		w.log = append(w.log, c11sRec{K: "exit", Th: c11sThread(), St: stm.state, A: stm.stopAction, T: vrt.Now()})
 		panic(c11sExit{})
 	}
 	vrt.Yield()
@@ -244,7 +247,7 @@ func (w *c11sWorld) spawn(name string, fn func()) {
 			if len(msg) > 80 {
 				msg = msg[:80]
 			}
-			w.log = append(w.log, c11sRec{K: "died:" + msg, Th: name, St: stm.state, T: vrt.Now()})
+			w.log = append(w.log, c11sRec{K: "died:" + msg, Th: name, St: stm.state, A: stm.stopAction, T: vrt.Now()})
 			switch name {
 			case "K":
 				w.kDead = true
@@ -402,6 +405,13 @@ func (w *c11sWorld) enabled(ev string) bool {
 	switch ev {
 	case "run":
 		return !w.mainStarted
+	}
+	if !w.mainStarted && len(w.c.Events) >= 1 {
+		// at most one notice before the run: the stage manager is in state Nil, where a notice only
+		// leaves its action behind
+		return false
+	}
+	switch ev {
 	case "int":
 		return !w.iUsed
 	case "up+", "up-":
@@ -547,9 +557,12 @@ func (w *c11sWorld) body() {
 		vrt.QuiesceNoTimers()
 	}
 	w.endKey = w.key()
+	snap := *w
+	w.end = &snap // enabledness of the next event is decided on the state at the end of the history
 	// closing: let every timer fire, look, then ask for a graceful stop
 	vrt.Quiesce()
 	w.settledExited, w.settledState = w.exited, stm.state
+	w.settledWg = c11sWgN()
 	w.settledQueues = fmt.Sprintf("K[%d] L[%d] I[%d]", len(w.kq), len(w.lq), len(w.iq))
 	if !w.exited && w.mainStarted {
 		w.closingSent = true
@@ -574,7 +587,8 @@ func (w *c11sWorld) logText() string {
 func (w *c11sWorld) judge() []c11sFinding {
 	var out []c11sFinding
 	lg := w.log
-	add := func(key, detail string) { out = append(out, c11sFinding{key, detail}) }
+	ctx := ""
+	add := func(key, detail string) { out = append(out, c11sFinding{key, ctx + " " + detail}) }
 	first := func(prefix string) int {
 		for i, r := range lg {
 			if strings.HasPrefix(r.K, prefix) {
@@ -625,7 +639,7 @@ func (w *c11sWorld) judge() []c11sFinding {
 		ks = append(ks, k)
 	}
 	sort.Strings(ks)
-	ctx := " [notices begun: " + strings.Join(ks, ",") + "]"
+	ctx = "[notices begun: " + strings.Join(ks, ",") + "]"
 	immediate := func(before int) bool { // an immediate-stop notice (SIGQUIT / SIGINT) began before index
 		for i, r := range lg {
 			if i >= before {
@@ -698,10 +712,10 @@ func (w *c11sWorld) judge() []c11sFinding {
 		if term >= 0 && !immediate(decision) {
 			switch {
 			case len(se) == 0:
-				add("graceful stop: SIGTERM was noticed while serving and no immediate-stop signal, yet the process reaches Stopped without app.Shutdown (listeners keep accepting until the close, nothing is drained)"+ctx,
-					fmt.Sprintf("history %q schedule %v: term noticed at %d, stop decision at %d (stopAction was %s then); log: %s", w.c.hist(), w.c.Choices, term, decision, c11sActionNames[stm.stopAction], w.logText()))
+				add("graceful stop: SIGTERM was noticed while serving and no immediate-stop signal, yet the process reaches Stopped without app.Shutdown (listeners keep accepting until the close, nothing is drained): the stop action Stop() read was "+c11sActionNames[lg[decision].A],
+					fmt.Sprintf("history %q schedule %v: term noticed at %d, stop decision at %d %s; log: %s", w.c.hist(), w.c.Choices, term, decision, ctx, w.logText()))
 			case (len(cl) > 0 && cl[0] < se[0]) || (len(as) > 0 && as[0] < se[0]):
-				add("graceful stop: app.Close or an after-stop stage runs before app.Shutdown (the drain) has returned"+ctx,
+				add("graceful stop: app.Close or an after-stop stage runs before app.Shutdown (the drain) has returned",
 					fmt.Sprintf("history %q schedule %v: log: %s", w.c.hist(), w.c.Choices, w.logText()))
 			}
 		}
@@ -714,17 +728,28 @@ func (w *c11sWorld) judge() []c11sFinding {
 			bad = !(se[0] < g1[0] && g1[0] < g2[0]) || (len(cl) > 0 && cl[0] < g2[0])
 		}
 		if bad {
-			add("graceful-stop stage: the registered callbacks do not run exactly once each, in registration order, after app.Shutdown and before app.Close"+ctx,
+			add("graceful-stop stage: the registered callbacks do not run exactly once each, in registration order, after app.Shutdown and before app.Close",
 				fmt.Sprintf("history %q schedule %v: shutdown-end %v cb#1 %v cb#2 %v close %v; log: %s", w.c.hist(), w.c.Choices, se, g1, g2, cl, w.logText()))
 		}
 	}
 	// (a3) nothing twice; Close before the after-stop stages, those in order
 	if len(sb) > 1 || len(cl) > 1 || len(all("after-stop#1")) > 1 || len(all("after-stop#2")) > 1 {
-		add("the application is shut down / closed / cleaned up twice"+ctx,
+		add("the application is shut down / closed / cleaned up twice",
 			fmt.Sprintf("history %q schedule %v: shutdown-begin %v close %v after-stop %v; log: %s", w.c.hist(), w.c.Choices, sb, cl, as, w.logText()))
 	}
 	if len(cl) > 0 && len(as) > 0 && as[0] < cl[0] {
-		add("an after-stop stage runs before app.Close"+ctx, fmt.Sprintf("history %q schedule %v: log: %s", w.c.hist(), w.c.Choices, w.logText()))
+		add("an after-stop stage runs before app.Close", fmt.Sprintf("history %q schedule %v: log: %s", w.c.hist(), w.c.Choices, w.logText()))
+	}
+
+	// (d) the main goroutine is released twice before it has run: the counter of the WaitGroup is
+	// negative and nothing has been stopped. Under the scheduler main stays blocked in WaitFinish;
+	// the real sync.WaitGroup has released main at the first Done, and main panics when it wakes up
+	// ("WaitGroup is reused before previous Wait has returned"; a main that had not reached Wait yet
+	// blocks for ever): either way the stop sequence never runs. One finding for the class.
+	doubleRelease := w.mainStarted && !w.settledExited && w.settledWg < 0
+	if doubleRelease {
+		add("two notices that each release the main goroutine (stop / graceful stop / a successful upgrade) are handled before it has woken up: the WaitGroup counter goes negative and the stop sequence never runs",
+			fmt.Sprintf("history %q schedule %v: settled state %s wg=%d; log: %s", w.c.hist(), w.c.Choices, c11sSN(w.settledState), w.settledWg, w.logText()))
 	}
 
 	// (b) upgrade
@@ -754,7 +779,7 @@ func (w *c11sWorld) judge() []c11sFinding {
 							}
 						}
 						if !prevOK {
-							add("upgrade: the old application is shut down / closed before the upgrade handler reported success, and nobody asked it to stop"+ctx,
+							add("upgrade: the old application is shut down / closed before the upgrade handler reported success, and nobody asked it to stop",
 								fmt.Sprintf("history %q schedule %v: %s at %d, handler %d..%d; log: %s", w.c.hist(), w.c.Choices, k, j, hb, he, w.logText()))
 						}
 						break
@@ -770,7 +795,7 @@ func (w *c11sWorld) judge() []c11sFinding {
 					}
 					if strings.HasPrefix(k, "app.Shutdown-begin") || strings.HasPrefix(k, "app.Close") || strings.HasPrefix(k, "after-stop#") || k == "exit" {
 						if !stopAsked(j) && len(all("handler-end:ok")) == 0 {
-							add("upgrade failed (no new MOSN took over), yet the old process is shut down / closed although nobody asked it to stop"+ctx,
+							add("upgrade failed (no new MOSN took over), yet the old process is shut down / closed although nobody asked it to stop",
 								fmt.Sprintf("history %q schedule %v: %s at %d after handler-end:fail at %d; log: %s", w.c.hist(), w.c.Choices, k, j, he, w.logText()))
 						}
 						break
@@ -781,13 +806,13 @@ func (w *c11sWorld) judge() []c11sFinding {
 		// (b2') after a failed upgrade and nothing else that stops: Running again once everything has settled
 		if nf, nok := len(all("handler-end:fail")), len(all("handler-end:ok")); nf > 0 && nok == 0 && w.mainStarted && !stopAskedBeforeClosing(lg) {
 			if w.settledExited || w.settledState != Running {
-				add("upgrade failed: the old process does not return to Running"+ctx,
+				add("upgrade failed: the old process does not return to Running",
 					fmt.Sprintf("history %q schedule %v: settled state %s exited=%v; log: %s", w.c.hist(), w.c.Choices, c11sSN(w.settledState), w.settledExited, w.logText()))
 			}
 		}
 		// (b3) the handler reported success: the old process stops without a further signal
-		if len(all("handler-end:ok")) > 0 && !w.settledExited {
-			add("upgrade succeeded: the old process does not stop"+ctx,
+		if len(all("handler-end:ok")) > 0 && !w.settledExited && !doubleRelease {
+			add("upgrade succeeded: the old process does not stop",
 				fmt.Sprintf("history %q schedule %v: settled state %s queues %s; log: %s", w.c.hist(), w.c.Choices, c11sSN(w.settledState), w.settledQueues, w.logText()))
 		}
 	}
@@ -804,11 +829,13 @@ func (w *c11sWorld) judge() []c11sFinding {
 				break
 			}
 		}
-		if asked >= 0 && !w.settledExited {
-			add("a stop notice (SIGTERM / SIGQUIT / SIGINT) is handled but the process never reaches Stopped"+ctx,
-				fmt.Sprintf("history %q schedule %v: %s at %d; settled state %s wg=%d queues %s; log: %s", w.c.hist(), w.c.Choices, lg[asked].K, asked, c11sSN(w.settledState), c11sWgN(), w.settledQueues, w.logText()))
+		if doubleRelease {
+			// reported above
+		} else if asked >= 0 && !w.settledExited {
+			add("a stop notice (SIGTERM / SIGQUIT / SIGINT) is handled but the process never reaches Stopped",
+				fmt.Sprintf("history %q schedule %v: %s at %d; settled state %s wg=%d queues %s; log: %s", w.c.hist(), w.c.Choices, lg[asked].K, asked, c11sSN(w.settledState), w.settledWg, w.settledQueues, w.logText()))
 		} else if !w.finalExited {
-			add("the process can not be stopped gracefully any more: a final SIGTERM never leads to Stopped"+ctx,
+			add("the process can not be stopped gracefully any more: a final SIGTERM never leads to Stopped",
 				fmt.Sprintf("history %q schedule %v: final state %s wg=%d kDead=%v K busy with %q queue %d; log: %s", w.c.hist(), w.c.Choices, c11sSN(w.finalState), c11sWgN(), w.kDead, w.kBusy, len(w.kq), w.logText()))
 		}
 	}
@@ -835,10 +862,20 @@ type c11sRun struct {
 	def      *c11sWorld // the execution on the default schedule
 }
 
-func c11sReap() {
+// c11sReap collects the /bin/true children that stood for new servers (StartNewServer does not wait
+// for its child); without blocking, except every 256th call and at the end.
+var c11sReapN int
+
+func c11sReap(block bool) {
+	c11sReapN++
+	flags := syscall.WNOHANG
+	if block || c11sReapN&255 == 0 {
+		flags = 0
+	}
 	for {
 		var ws syscall.WaitStatus
-		if _, err := syscall.Wait4(-1, &ws, 0, nil); err != nil {
+		pid, err := syscall.Wait4(-1, &ws, flags, nil)
+		if err != nil || pid <= 0 {
 			return
 		}
 	}
@@ -857,7 +894,7 @@ func c11sExplore(p *vreport.Part, c c11sCase, replay bool, maxExecs int) c11sRun
 		c11sCur = w
 		w.body()
 	}, func(r *vrt.Result) {
-		c11sReap()
+		c11sReap(false)
 		p.Eval()
 		if opts.Trace {
 			fmt.Println(strings.Join(r.Trace, "\n"))
@@ -918,7 +955,7 @@ func TestVerifC11Stages(t *testing.T) {
 	c11sArgsFail = []string{"/nonexistent/verif-c11-new-mosn"}
 	os.Setenv("VERIF_C11_FORKED", "1")
 	os.Args = c11sArgsFail
-	defer func() { os.Args = c11sArgsOrig; os.Unsetenv("VERIF_C11_FORKED") }()
+	defer func() { os.Args = c11sArgsOrig; os.Unsetenv("VERIF_C11_FORKED"); c11sReap(true) }()
 	old := runtime.GOMAXPROCS(1)
 	defer runtime.GOMAXPROCS(old)
 
@@ -933,7 +970,7 @@ func TestVerifC11Stages(t *testing.T) {
 
 	depth := vreport.Pick(4, 5)      // events of a history, the run included
 	bound := vreport.Pick(1, 2)      // preemptions below a sequential history
-	pairBound := vreport.Pick(2, 2)  // preemptions below a history whose last two events are delivered together
+	pairBound := vreport.Pick(1, 2)  // preemptions below a history whose last two events are delivered together
 	cfgs := []struct {
 		cfg   c11sCfg
 		depth int
@@ -965,7 +1002,7 @@ func TestVerifC11Stages(t *testing.T) {
 			var next []node
 			for _, n := range frontier {
 				for _, e := range c11sAlphabet {
-					if !n.w.enabled(e) {
+					if !n.w.end.enabled(e) {
 						continue
 					}
 					if p.Expired() {
@@ -989,7 +1026,7 @@ func TestVerifC11Stages(t *testing.T) {
 						continue
 					}
 					for _, e2 := range c11sAlphabet {
-						if e2 == "tick" || e2 == "run" || !n.w.enabled(e2) {
+						if e2 == "tick" || e2 == "run" || !n.w.end.enabled(e2) {
 							continue
 						}
 						if e2 == e && (e == "int" || e == "up+") {
